@@ -502,8 +502,8 @@ struct Ctx<'a> {
 }
 
 const LITS: &[char] = &['a', 'a', 'a', 'b', 'b', 'c', 'é', '-', '1'];
-const CLASSES: &[&str] = &["[ab]", "\\w", "\\d", "[^a]", "[a-c]", "\\s", "[é1]"];
-const ANCHORS: &[&str] = &["^", "$", "\\b", "\\B", "\\A", "\\z", "(?m:^)", "(?m:$)"];
+const CLASSES: &[&str] = &["[ab]", "\\w", "\\d", "[^a]", "[a-c]", "\\s", "[é1]", "\\W", "\\S", "\\h", "\\p{L}", "[^\\n]", "(?s:.)"];
+const ANCHORS: &[&str] = &["^", "$", "\\b", "\\B", "\\A", "\\z", "(?m:^)", "(?m:$)", "\\Z", "\\<", "\\>"];
 
 impl<'a> Ctx<'a> {
     fn atom_simple(&mut self) -> Node {
